@@ -52,10 +52,12 @@ def getIdx (a : Bitset) (i : Int) : Except Err Bool :=
   let pos : Int := (a.length : Int) - i - 1
   if pos < 0 then .error .valueError else .ok (a.value.testBit pos.toNat)
 
-/-- `b[start:stop:step]`. -/
-def getSlice (a : Bitset) (start stop step : Option Int) : Except Err (List Bool) := do
-  let idx ← sliceRange start stop step a.length
-  .ok (idx.map fun p => a.value.testBit ((a.length : Int) - p - 1).toNat)
+/-- `b[start:stop:step]`.  If `slice.indices` raises (zero step) the method's bare `except:` falls
+    back to `len(self) - s - 1`, which raises `TypeError`. -/
+def getSlice (a : Bitset) (start stop step : Option Int) : Except Err (List Bool) :=
+  match sliceRange start stop step a.length with
+  | .error _ => .error .typeError
+  | .ok idx => .ok (idx.map fun p => a.value.testBit ((a.length : Int) - p - 1).toNat)
 
 /-- `b[:]`, also `list(iter(b))`. -/
 def toBits (a : Bitset) : List Bool := (List.range a.length).map a.bitAt
